@@ -253,9 +253,9 @@ func (r *Registry) drawC05(rt *rapid.T) C05Case {
 func (r *Registry) Bombs() map[string]C05Case {
 	key := r.Keys[0]
 	return map[string]C05Case{
-		"struct-bomb-10MB": {Struct: key, Kind: "shape", In: []byte{0x0A}, Unit: []byte{0x0A}, Rep: 10 << 20, NT: true},
-		"list-bomb-10MB":   {Struct: key, Kind: "shape", In: []byte{0x09, 0x00, 0x01}, Unit: []byte{0x09, 0x00, 0x01}, Rep: (10 << 20) / 3, NT: true},
-		"map-bomb-10MB":    {Struct: key, Kind: "shape", In: []byte{0x08, 0x00, 0x01}, Unit: []byte{0x0C, 0x18, 0x00, 0x01}, Rep: (10 << 20) / 4, NT: true},
+		"struct-bomb-10MB":  {Struct: key, Kind: "shape", In: []byte{0x0A}, Unit: []byte{0x0A}, Rep: 10 << 20, NT: true},
+		"list-bomb-10MB":    {Struct: key, Kind: "shape", In: []byte{0x09, 0x00, 0x01}, Unit: []byte{0x09, 0x00, 0x01}, Rep: (10 << 20) / 3, NT: true},
+		"map-bomb-10MB":     {Struct: key, Kind: "shape", In: []byte{0x08, 0x00, 0x01}, Unit: []byte{0x0C, 0x18, 0x00, 0x01}, Rep: (10 << 20) / 4, NT: true},
 		"struct-bomb-block": {Struct: key, Block: true, Kind: "shape", In: []byte{0x0A, 0xFA, 0xFF}, Unit: []byte{0x0A}, Rep: 10 << 20, NT: true},
 	}
 }
@@ -274,11 +274,11 @@ func (r *Registry) PairBombs() map[string]C05Case {
 		return e.Buf
 	}
 	runs := map[string]Seg{
-		"structbegin": {Unit: []byte{0x0A}, Rep: half},
-		"structend":   {Unit: []byte{0x0B}, Rep: half},
-		"zero":        {Unit: []byte{0x0C}, Rep: half},
-		"listnest":    {Unit: []byte{0x09, 0x00, 0x01}, Rep: half / 3},
-		"mapnest":     {Head: []byte{0x08, 0x00, 0x01}, Unit: []byte{0x0C, 0x18, 0x00, 0x01}, Rep: half / 4},
+		"structbegin":       {Unit: []byte{0x0A}, Rep: half},
+		"structend":         {Unit: []byte{0x0B}, Rep: half},
+		"zero":              {Unit: []byte{0x0C}, Rep: half},
+		"listnest":          {Unit: []byte{0x09, 0x00, 0x01}, Rep: half / 3},
+		"mapnest":           {Head: []byte{0x08, 0x00, 0x01}, Unit: []byte{0x0C, 0x18, 0x00, 0x01}, Rep: half / 4},
 		"list-of-structend": {Head: count(rc.WList, half), Unit: []byte{0x0B}, Rep: half},
 		"map-of-structend":  {Head: count(rc.WMap, half/2), Unit: []byte{0x0B}, Rep: half},
 	}
